@@ -8,7 +8,7 @@ from mirsym.values import *
 from mirsym.harness import *
 from mirsym.report import Violation
 from props.connlib import *
-from props.c02 import collect_simple
+from props.c02 import collect_simple, validate_samples
 
 LEVEL = 'model_checking'
 
@@ -72,6 +72,11 @@ def run(L, rep, tier, seed):
             # the upgraded request owns the rest of the stream: only the decision (no further request) is checked here
             pass
         ctx.check_always(z3.BoolVal(urls == want), 'requests-delivered-per-persistence-rule', sc)
+        if not late and 'upgrade' not in toks:
+            m0 = ctx.model()
+            if m0 is not None:
+                ctx.event('sample', dict(sc(m0), mode='respond_all', predicted={'urls': [u.decode('latin1') for u in urls if u is not None],
+                                                                               'codes': [200] * len(urls), 'eof': True}))
         if last and urls == want:
             ctx.check_always(cv.wire.pos == bv(len(pre + a)), 'no-byte-read-after-the-last-request', sc)
         # the connection task ends: ClientConnection dropped; responses possibly still pending
@@ -100,3 +105,4 @@ def run(L, rep, tier, seed):
           bound='versions 1.0/1.1 x Connection token lists %s (any letter case, optional SP after commas, symbolic "other" tokens) x '
                 'pipeline position 0/1 x responses sent immediately / after the connection task ended; client half-closes after its last byte' % LISTS)
     collect_simple(S, rep, 'C12', 'persistence')
+    validate_samples(S, rep, 'persistence')
